@@ -404,6 +404,29 @@ pub fn run(ctx: &Ctx) {
         v
     }, check_call);
 
+    ctx.exhaustive("asn1_integer_length_grid", "decrypt_asn1 on SM2Cipher documents whose x and y INTEGERs have every content length 0..=36 x 0..=36 (both flag values), and from_pkcs8_der / from_public_key_der on envelopes with every private-key and public-key field length: never a panic", || {
+        let mut v = Vec::new();
+        for lx in 0..=36usize {
+            for ly in 0..=36usize {
+                for compressed in [false, true] {
+                    v.push(super::c19::Asn1Lens { lx, ly, compressed });
+                }
+            }
+        }
+        v
+    }, super::c19::check_asn1_lens);
+    ctx.exhaustive("key_document_field_length_grid", "PKCS#8 / SPKI envelopes with every private-key length 0..=40 and public-key length 0..=70: never a panic", || {
+        let mut v = Vec::new();
+        for dlen in 0..=40usize {
+            v.push(super::c19::KeyLens { dlen, plen: None });
+            v.push(super::c19::KeyLens { dlen, plen: Some(65) });
+        }
+        for plen in 0..=70usize {
+            v.push(super::c19::KeyLens { dlen: 32, plen: Some(plen) });
+        }
+        v
+    }, super::c19::check_key_lens);
+
     ctx.exhaustive("sm4_iv_carry_family", "SM4 modes with IVs ending in t = 0..=16 bytes 0xFF (last byte also 0xFE, 0xFD, 0xF0: the counter carries or wraps inside the message) x data of 0..=100 bytes, encrypt and decrypt", || {
         let mut v = Vec::new();
         for e in ["sm4.mode.encrypt(mode,iv,data)", "sm4.mode.decrypt(mode,iv,data)"] {
